@@ -35,7 +35,8 @@ CONSTANTS
   Intervals,               \* values for set_pingreq_send_interval (-1 = None); {} = never called
   Fire, Close, Erase, IdOps, Crash, Garbage, BadFrames, SendWhileDisc, PeerWhileDisc,
   LateFrames,         \* frames already in flight still arrive after the connection asked for the close
-  CrossVersion        \* the application also hands in packets of the OTHER protocol version (must be refused)
+  CrossVersion,       \* the application also hands in packets of the OTHER protocol version (must be refused)
+  Restore             \* a fresh object is given an export first - also malformed ones (duplicate ids, QoS 0 entries)
 
 VARIABLES st,    \* Endpoint state of the object under test
           sh,    \* shadow object [mode, st]: fresh / fixed-version / restored copy (C10, C17, C16)
@@ -150,6 +151,16 @@ EnvChoices(s, gh) ==
   \* ... and only in persistent sessions (the property: "before reconnecting with the session present")
   \cup (IF Crash /\ gh.tr /\ gh.nconn >= 1 /\ gh.held = {} /\ ~(\E e \in gh.await : e.kind = "pubrel") /\ gh.persistent
         THEN { [Call("crash") EXCEPT !.flag = hf] : hf \in BOOLEAN }   \* flag: handled-id set restored before the packets
+        ELSE {})
+  (* an export handed to a fresh object before its first connection: well-formed ones and the malformed ones of C16's
+     quantifier (the same identifier twice - also under two kinds -, QoS 0 entries) *)
+  \cup (IF Restore /\ ~quiet /\ disc /\ gh.nconn = 0 /\ s.store = <<>> /\ gh.used = {} /\ s.ver # "undet"
+        THEN LET P(q, pid) == Sized([Pk("publish", s.ver) EXCEPT !.qos = q, !.pid = pid, !.topic = "t1", !.msg = "m1", !.dup = TRUE], s.idw)
+                 L(pid) == AckPkt("pubrel", s.ver, pid, 0, s.idw)
+             IN  { [Call("restore") EXCEPT !.pkts = l] :
+                     l \in { << P(1, 1) >>, << P(2, 1), P(1, 2) >>, << L(1) >>,
+                             << P(1, 1), P(2, 1) >>, << P(2, 1), P(1, 1) >>, << P(1, 1), P(1, 1) >>, << P(1, 1), L(1) >>, << L(1), P(2, 1) >>,
+                             << P(0, 0), P(1, 1) >>, << P(1, 2), P(0, 0) >> } }
         ELSE {})
   (* identifiers *)
   \cup (IF ~quiet /\ Cardinality(gh.held) < MaxHeld /\ Cardinality(gh.used) < MaxUsed THEN { Call("acquire") } ELSE {})
